@@ -16,4 +16,6 @@ PrivDupShaped ==
     /\ Len(calls) >= 5 => (calls[5].op = "connect" /\ \E k \in 1..2 : ArgIs(calls[5], k, "priv") /\ (IsRet(calls[5], 3 - k, calls[3]) \/ IsRet(calls[5], 3 - k, calls[1])))
     /\ Len(calls) <= 5
 
+\* deviation: the fusion pass receives the private-input slots WITHOUT the rewrite (stale ids)
+StaleExtSlots == { privrows[i] : i \in DOMAIN privrows }
 ====
